@@ -54,7 +54,7 @@ var reCollection = regexp.MustCompile(`^([a-z]|X[0-9]+)s$`)
 func C07(e *core.Env) {
 	res := e.Res
 	res.Rule = "cases = well-formed declarative profiles that must compile: (a) N nested constraints side by side in one validation, N in 1..40 crossing the 25-letter boundary (quick: 14 values, thorough: all), (b) nesting depth 1..7, (c) 1..30 validations over the three levels, (d) every documented constraint kind x path shape (single, sequence, alternative, inverse, alternative inside a sequence inside an alternative, @type), (e) several constraints of one kind in one rule body (or / if / not-and), with messages of 0..3 placeholders, (f) seeded random formulas; " +
-		"for (a) and (b) the quantified variables and collections found in the real module (parsed with the engine's parser) must be exactly the model's var_name / plural; (i) the string literal written for 12 patterns and the set literal written for 6 value lists, text against text with the Coq model; (h) 28 legal but degenerate / unusual arguments (empty lists, zero counts, patterns with a backtick / quote / backslash class / newline, path keys over several lines or with tabs, zero / negative / float bounds, quantifier counts 0 and 10^6) plain and under not; (j) 8 level listings (a validation under two / three levels, twice under one level, a level listing only validations another level lists too); (k) histories: two well-formed profiles compiled three times after each of 6 refused profiles (undeclared prefix in a path / class / placeholder, broken Rego, a non-path, no YAML); (l) the text of the path rules (values and nodes mode) of every path with <= 2 leaves and a sample with 3, over regular and custom (api-extension) properties, line by line against PathGen.path_rule_lines; (g) 24 texts (each control / format / astral / quoting character on its own) x {profile name, validation name, message, list value}; non-trivial = every case; distinct by profile text"
+		"for (a) and (b) the quantified variables and collections found in the real module (parsed with the engine's parser) must be exactly the model's var_name / plural; (i) the string literal written for 12 patterns and the set literal written for 6 value lists, text against text with the Coq model; (h) 28 legal but degenerate / unusual arguments (empty lists, zero counts, patterns with a backtick / quote / backslash class / newline, path keys over several lines or with tabs, zero / negative / float bounds, quantifier counts 0 and 10^6) plain and under not; (j) 8 level listings (a validation under two / three levels, twice under one level, a level listing only validations another level lists too); (k) histories: two well-formed profiles compiled three times after each of 6 refused profiles (undeclared prefix in a path / class / placeholder, broken Rego, a non-path, no YAML); (m) the text of whole rules (one-branch validations: a count / length / pattern / datatype constraint plain or under `not`, an `or` of two, over three path shapes, three levels, names with quotes and percent signs, messages with 0-2 placeholders), every line against RuleGen.rule_lines; (l) the text of the path rules (values and nodes mode) of every path with <= 2 leaves and a sample with 3, over regular and custom (api-extension) properties, line by line against PathGen.path_rule_lines; (g) 24 texts (each control / format / astral / quoting character on its own) x {profile name, validation name, message, list value}; non-trivial = every case; distinct by profile text"
 	compile := func(label, profile string, known func(err error) bool) bool {
 		_, err := pkg.CompileProfile(profile, false, nil)
 		if err == nil {
@@ -467,6 +467,157 @@ func C07(e *core.Env) {
 			}
 			res.Case("path-rule-text|"+pth.Canon(), true)
 			res.Count("family=path-rule-text")
+		}
+	}
+	// (m) the TEXT of whole rules: one validation whose failure has one branch - a single constraint, plain or under `not`, or an
+	// `or` of two constraints of different kinds - over count / length / pattern / datatype constraints; every line of every
+	// rule of the real module against RuleGen.rule_lines (the numbers in generated names, the path comment and the trace path are
+	// read off the real text; everything else comes from the profile), whose bodies are proved safe
+	{
+		type ratom struct {
+			key, val, kind string
+			perValue       bool
+			cond           string
+			k              int
+			pat, dt        string
+		}
+		atomsR := []ratom{
+			{key: "minCount", val: "2", kind: "count", cond: ">=", k: 2}, {key: "maxCount", val: "0", kind: "count", cond: "<=", k: 0}, {key: "exactCount", val: "1", kind: "count", cond: "==", k: 1},
+			{key: "minLength", val: "3", kind: "count", perValue: true, cond: ">=", k: 3}, {key: "maxLength", val: "7", kind: "count", perValue: true, cond: "<=", k: 7}, {key: "exactLength", val: "1", kind: "count", perValue: true, cond: "==", k: 1},
+			{key: "pattern", val: `"^[a-z]+$"`, kind: "pattern", pat: "^[a-z]+$"}, {key: "pattern", val: `'a` + "`" + `b "q" \\d'`, kind: "pattern", pat: "a`b \"q\" \\\\d"},
+			{key: "datatype", val: "xsd.string", kind: "datatype", dt: "http://www.w3.org/2001/XMLSchema#string"}, {key: "datatype", val: "xsd.integer", kind: "datatype", dt: "http://www.w3.org/2001/XMLSchema#integer"},
+		}
+		pathsR := []string{"ex.a", "ex.a / ex.b", "( ex.a | ex.b ^ ) / ex.c"}
+		msgs := []struct {
+			text string
+			iris []string
+		}{{"plain message", nil}, {"m {{ex.a}}", []string{ExNS + "a"}}, {"{{ex.a}} and {{ ex.b }}: 100% \"sure\"", []string{ExNS + "a", ExNS + "b"}}}
+		reRuleHead := regexp.MustCompile(`^(violation|warning|info)\[matches\] \{$`)
+		reTrace := regexp.MustCompile(`^_result_\d+ := trace\("([^"]*)","([^"]*)",`)
+		reCount := regexp.MustCompile(`^gen_propValues_(\d+) = (gen_path_set_rule_\d+) with `)
+		rePat := regexp.MustCompile(`^gen_(gen_path_set_rule_\d+)_node_(\d+)_array = `)
+		reDt := regexp.MustCompile(`^gen_datatype_check_(\d+)_elem = (gen_path_set_rule_\d+) with `)
+		type rcase struct {
+			label, body string
+			atoms       []ratom
+			negated     bool
+		}
+		cases := []rcase{}
+		n := 0
+		for ai, a := range atomsR {
+			for pi, pth := range pathsR {
+				if e.Quick() && (ai+pi)%2 != 0 {
+					continue
+				}
+				pc := fmt.Sprintf("    propertyConstraints:\n      %s:\n        %s: %s\n", yamlQuote(pth), a.key, a.val)
+				cases = append(cases, rcase{a.key + " on " + pth, pc, []ratom{a}, false})
+				cases = append(cases, rcase{"not " + a.key + " on " + pth, "    not:\n  " + strings.ReplaceAll(pc, "\n    ", "\n      "), []ratom{a}, true})
+			}
+		}
+		for _, ij := range [][2]int{{0, 6}, {4, 8}, {2, 7}, {5, 9}} {
+			a, b := atomsR[ij[0]], atomsR[ij[1]]
+			cases = append(cases, rcase{"or of " + a.key + " and " + b.key, fmt.Sprintf("    or:\n      - propertyConstraints:\n          ex.a:\n            %s: %s\n      - propertyConstraints:\n          ex.b / ex.c:\n            %s: %s\n", a.key, a.val, b.key, b.val), []ratom{a, b}, false})
+		}
+		for ci, c := range cases {
+			m := msgs[ci%len(msgs)]
+			level := []string{"violation", "warning", "info"}[ci%3]
+			name := []string{"v", "rule with \"quotes\" and 100%", "ünï-rule"}[ci%3]
+			profile := header + level + ":\n  - " + yamlQuote(name) + "\nvalidations:\n  " + yamlQuote(name) + ":\n    targetClass: ex.T\n    message: " + yamlQuote(m.text) + "\n" + c.body
+			unit, gerr := validator.GenerateRego(profile, false, nil)
+			if gerr != nil || unit == nil {
+				res.Violate("impl-violates-property", "a well-formed declarative profile is not translated ("+c.label+"): "+fmt.Sprint(gerr), map[string]any{"profile": profile})
+				continue
+			}
+			// the rules of the module
+			var rules [][]string
+			var cur []string
+			in := false
+			for _, raw := range strings.Split(unit.Code, "\n") {
+				switch {
+				case reRuleHead.MatchString(raw):
+					in, cur = true, []string{raw}
+				case in && raw == "}":
+					in = false
+					rules = append(rules, append(cur, raw))
+				case in:
+					cur = append(cur, raw)
+				}
+			}
+			if len(rules) != 1 {
+				res.Violate("harness-error", fmt.Sprintf("%d rules where one branch was expected (%s)", len(rules), c.label), map[string]any{"no_failing_input_found": true, "broken": "C07 rule-text generator", "profile": profile, "rego_tail": core.Trunc(unit.Code[max(0, len(unit.Code)-1200):], 1200)})
+				continue
+			}
+			rule := rules[0]
+			// the snippets in the order of the real text: kind and numbers from the binding line, path comment, trace path
+			snips := []sx.V{}
+			var src string
+			var pending *sx.V
+			okShape := true
+			for _, raw := range rule {
+				line := strings.TrimSpace(raw)
+				if strings.HasPrefix(line, "#  querying path: ") {
+					src = strings.TrimPrefix(line, "#  querying path: ")
+				}
+				byKind := func(kind string) (ratom, bool) {
+					for _, a := range c.atoms {
+						if a.kind == kind {
+							return a, true
+						}
+					}
+					return ratom{}, false
+				}
+				if mm := reCount.FindStringSubmatch(line); mm != nil {
+					a, ok := byKind("count")
+					okShape = okShape && ok
+					v := sx.L(sx.A("count"), sx.S(src), sx.S(mm[2]), sx.A(mm[1]), sx.B(a.perValue), sx.B(c.negated), sx.S(a.cond), sx.I(a.k), sx.S(a.key))
+					pending = &v
+				} else if mm := rePat.FindStringSubmatch(line); mm != nil {
+					a, ok := byKind("pattern")
+					okShape = okShape && ok
+					shown, _ := json.Marshal(a.pat)
+					v := sx.L(sx.A("pattern"), sx.S(src), sx.S(mm[1]), sx.A(mm[2]), sx.B(c.negated), sx.S(a.pat), sx.S(string(shown)))
+					pending = &v
+				} else if mm := reDt.FindStringSubmatch(line); mm != nil {
+					a, ok := byKind("datatype")
+					okShape = okShape && ok
+					v := sx.L(sx.A("datatype"), sx.S(src), sx.S(mm[2]), sx.A(mm[1]), sx.B(c.negated), sx.S(a.dt))
+					pending = &v
+				} else if mm := reTrace.FindStringSubmatch(line); mm != nil && pending != nil {
+					pending.List = append(pending.List, sx.S(mm[2]))
+					snips = append(snips, *pending)
+					pending = nil
+				}
+			}
+			iris := []sx.V{}
+			for _, i := range m.iris {
+				iris = append(iris, sx.S(i))
+			}
+			replay := map[string]any{"profile": profile, "case": c.label, "impl_rule": strings.Join(rule, "\n")}
+			if !okShape || len(snips) != len(c.atoms) {
+				replay["no_failing_input_found"] = true
+				replay["broken"] = "correspondence RuleGen.rule_lines vs generator (the rule does not have the snippets of the profile's constraints)"
+				res.Violate("model-mismatch", "the rule generated for "+c.label+" does not have the shape RuleGen models", replay)
+				continue
+			}
+			ans, derr := e.Driver.Eval(sx.L(sx.A("c07"), sx.A("rule-lines"), sx.S(level), sx.S("x"), sx.S(ExNS+"T"), sx.S(name), sx.L(snips...), sx.L(iris...), sx.S(m.text)))
+			if derr != nil {
+				res.Violate("harness-error", derr.Error(), map[string]any{"no_failing_input_found": true, "broken": "driver"})
+				break
+			}
+			model := []string{}
+			for _, l := range ans.List {
+				model = append(model, l.Text())
+			}
+			if strings.Join(model, "\n") != strings.Join(rule, "\n") {
+				replay["no_failing_input_found"] = true
+				replay["broken"] = "correspondence RuleGen.rule_lines vs generator/expression.go + count.go / pattern.go / datatype.go"
+				replay["model_rule"] = strings.Join(model, "\n")
+				replay["first_diff_line"] = firstDiff(strings.Join(model, "\n"), strings.Join(rule, "\n"))
+				res.Violate("model-mismatch", "the text of the rule generated for "+c.label+" differs from RuleGen.rule_lines", replay)
+			}
+			n++
+			res.Case("rule-text|"+c.label+"|"+level+"|"+m.text, true)
+			res.Count("family=rule-text")
 		}
 	}
 	// the model's declaration list, for the record
